@@ -45,7 +45,10 @@ type script struct {
 	pre101   bool        // call WriteHeader(101) before hijacking, as protocol switches may do
 	pre200   bool        // call WriteHeader(200) before hijacking, as a CONNECT tunnel does
 	trailers [][2]string // set after the body under http.TrailerPrefix
-	plainTop bool        // the top-level writer supports neither Hijack nor Flush
+	// emptyFirst: the handler's very first action is an empty Write ("send the headers now"),
+	// which starts the response with the implicit 200; what it sets afterwards comes too late
+	emptyFirst bool
+	plainTop   bool // the top-level writer supports neither Hijack nor Flush
 }
 
 type outcome struct {
@@ -92,6 +95,9 @@ func (s *script) handler(o *outcome) http.Handler {
 			_, _ = io.WriteString(conn, s.hijacked)
 			conn.Close()
 			return
+		}
+		if s.emptyFirst {
+			_, _ = w.Write(nil)
 		}
 		for _, kv := range s.headers {
 			w.Header().Add(kv[0], kv[1])
@@ -140,6 +146,7 @@ func genScript(t *rapid.T) *script {
 		}
 	}
 	s.flush = rapid.Bool().Draw(t, "flush")
+	s.emptyFirst = s.info == 0 && rapid.IntRange(0, 7).Draw(t, "emptyFirstWrite") == 0
 	if len(s.writes) > 0 && rapid.IntRange(0, 3).Draw(t, "trailers") == 0 {
 		for i := rapid.IntRange(1, 2).Draw(t, "ntrailers"); i > 0; i-- {
 			s.trailers = append(s.trailers, [2]string{rapid.SampledFrom([]string{"X-Checksum", "Grpc-Status", "Server-Timing"}).Draw(t, "tn"), rapid.StringMatching(`[a-z0-9]{1,8}`).Draw(t, "tv")})
@@ -153,7 +160,7 @@ func (s *script) String() string {
 	for _, w := range s.writes {
 		n += len(w)
 	}
-	return fmt.Sprintf("{info:%d status:%d headers:%v body:%dB/%dwrites flush:%v hijack:%v pre101:%v pre200:%v trailers:%v}", s.info, s.status, s.headers, n, len(s.writes), s.flush, s.hijack, s.pre101, s.pre200, s.trailers)
+	return fmt.Sprintf("{info:%d status:%d headers:%v body:%dB/%dwrites flush:%v hijack:%v pre101:%v pre200:%v trailers:%v emptyFirstWrite:%v}", s.info, s.status, s.headers, n, len(s.writes), s.flush, s.hijack, s.pre101, s.pre200, s.trailers, s.emptyFirst)
 }
 
 var layerKinds = []string{"stream", "trace", "connlimit", "ratelimit", "cbreaker", "roundrobin", "roundrobin+sticky", "rebalancer", "buffer"}
@@ -424,6 +431,13 @@ func TestC20_Transparent(t *testing.T) {
 			layers = append(layers, rapid.SampledFrom(layerKinds).Draw(t, "layer"))
 		}
 		s := genScript(t)
+		for _, l := range layers {
+			if l == "buffer" {
+				// committing the head early (an empty first write, like a flush) is what a buffer
+				// does not do by design; a status set afterwards is then not "too late" for it
+				s.emptyFirst = false
+			}
+		}
 		tlsRequests = rapid.IntRange(0, 3).Draw(t, "tls") == 0
 		bodyLen := rapid.SampledFrom([]int{0, 0, 5, 200}).Draw(t, "reqBody")
 		// bare run
